@@ -130,8 +130,30 @@ def expected_lines(kind):
     return [], False
 
 
-def setup_dir():
-    d = tempfile.mkdtemp(prefix='c20_')
+def setup_carts_dir():
+    """The same files in a project folder below a PICO-8 carts folder (HOME is pointed at the scratch tree while
+    loading); the carts folder itself holds decoys of the same names with other contents, and one file that exists
+    only there. Returns (scratch root, home, project dir)."""
+    top = tempfile.mkdtemp(prefix='c20h_')
+    home = os.path.join(top, 'home')
+    carts = os.path.join(home, '.lexaloffle', 'pico-8', 'carts')
+    proj = os.path.join(carts, 'proj')
+    os.makedirs(proj)
+    d = setup_dir(proj)
+    os.makedirs(os.path.join(carts, 'sub'), exist_ok=True)
+    for name in LUA_FILES:
+        open(os.path.join(carts, name), 'wb').write(b'decoy=1\n')
+    for name in CART_CODE:
+        open(os.path.join(carts, name + '.p8'), 'wb').write(p8_text([b'decoy=2\n']))
+        open(os.path.join(carts, name + '.p8.png'), 'wb').write(png_bytes([b'decoy=3\n']))
+    open(os.path.join(carts, 'nothere.lua'), 'wb').write(b'rootonly=1\n')
+    os.makedirs(os.path.join(carts, 'sub'), exist_ok=True)
+    open(os.path.join(carts, 'sub', 'nothere.p8'), 'wb').write(p8_text([b'rootonly=2\n']))
+    return top, home, d
+
+
+def setup_dir(d=None):
+    d = d or tempfile.mkdtemp(prefix='c20_')
     os.makedirs(os.path.join(d, 'sub'))
     for name, data in LUA_FILES.items():
         open(os.path.join(d, name), 'wb').write(data)
@@ -164,11 +186,13 @@ def spelled_path(d, how):
             'double-slash': (None, d + '//main.p8')}[how]
 
 
-def check_cart(d, kinds, res, how=None):
+def check_cart(d, kinds, res, how=None, loc=None):
     from pico8.game import file as p8file
     res.evaluations += 1
     lines = [line_text(k) for k in kinds]
     case = {'lines': [l for l in lines], 'kinds': [kind_class(k) for k in kinds]}
+    if loc:
+        case['loc'] = loc
     if how:
         case['path_how'] = how
     if any(k[0] != 'plain' for k in kinds):
@@ -334,7 +358,7 @@ def path_sequences(tier):
 
 def shards(tier, seed):
     n = 32 if tier == 'quick' else 128
-    return [('paths', tier, k, 4) for k in range(4)] + [('seqs', tier, k, n) for k in range(n)] + [('resave',)] + [('spelled', tier, k, 4) for k in range(4)] + [('manytabs', tier, 0, 1)]
+    return [('paths', tier, k, 4) for k in range(4)] + [('cartsroot', tier, k, 2) for k in range(2)] + [('seqs', tier, k, n) for k in range(n)] + [('resave',)] + [('spelled', tier, k, 4) for k in range(4)] + [('manytabs', tier, 0, 1)]
 
 
 def resave_history(res):
@@ -379,6 +403,23 @@ def run_shard(item):
         res.sample({'history': 'load; re-save inc.lua, inc2.p8, inc0.p8.png with new code; load again (x3)'})
         return res
     kind_, tier, k, n = item
+    if kind_ == 'cartsroot':
+        top, home, d = setup_carts_dir()
+        old_home = os.environ.get('HOME')
+        os.environ['HOME'] = home
+        try:
+            for i, seq in enumerate(path_sequences('thorough')):
+                if i % n == k:
+                    check_cart(d, seq, res, loc='cartsroot')
+            if k == 0:
+                res.sample({'cartsroot': 'cart in $HOME/.lexaloffle/pico-8/carts/proj/, decoys of every target one level up'})
+        finally:
+            if old_home is None:
+                os.environ.pop('HOME', None)
+            else:
+                os.environ['HOME'] = old_home
+            shutil.rmtree(top, ignore_errors=True)
+        return res
     d = setup_dir()
     try:
         if kind_ == 'paths':
@@ -417,6 +458,19 @@ def replay(case):
             for sp in SPELLINGS:
                 by_text[line_text(('sp', sp, k))] = ('sp', sp, k)
     kinds = [by_text[l] for l in case['lines']]
+    if case.get('loc') == 'cartsroot':
+        top, home, d = setup_carts_dir()
+        old_home = os.environ.get('HOME')
+        os.environ['HOME'] = home
+        try:
+            check_cart(d, kinds, res, loc='cartsroot')
+        finally:
+            if old_home is None:
+                os.environ.pop('HOME', None)
+            else:
+                os.environ['HOME'] = old_home
+            shutil.rmtree(top, ignore_errors=True)
+        return [(s, v[0]) for s, v in res.violations.items()]
     d = setup_dir()
     try:
         check_cart(d, kinds, res, how=case.get('path_how'))
